@@ -130,3 +130,12 @@ Definition run_seff (eng : engine) (m : machine) (x : nat) (e : seff) : M :=
   end.
 Definition run_schedule_skeleton (sk : list seff) (eng : engine) (m : machine) (x : nat) : M :=
   lift (logo (OSched x)) ;; for_each (run_seff eng m x) sk.
+
+(* ---- snapshots (coq/Gen/GenGeom.v: get_persisted_snapshot / from_snapshot) ---- *)
+(* machine.get_state_by_id(id): ids of the model are indices; an id the machine does not have yields None *)
+Definition get_state_by_id (m : machine) (x : nat) : option nat := if Nat.ltb x (size m) then Some x else None.
+(* [f(x) for x in l if f(x)] with f returning an Optional *)
+Fixpoint filter_some {A B} (f : A -> option B) (l : list A) : list B :=
+  match l with [] => [] | x :: r => match f x with Some y => y :: filter_some f r | None => filter_some f r end end.
+(* how get_persisted_snapshot reads one field of the interpreter's own state *)
+Inductive pfield := PStatus | PContextCopy | PConfigSortedIds | POutput | PHistoryInOrder.
